@@ -116,4 +116,19 @@ CLAIMS["C17"] = {
     "design_ref": "DESIGN.md §3 C17",
 }
 
+CLAIMS["C11"] = {
+    "technique": "rapid state machine over a real loopback listener against a remote->connection/backlog model, marker datagrams for negative answers; concurrent bursts with isolation/order/duplicate oracle",
+    "engine": "rapid-models",
+    "text": "Generated-input search on real sockets: backlog {1,2,4,128}, accept filter on/off, batch reading off/2/8, 1..6 remotes on the same IP; steps send / accept / read / close / send-again; after every send a marker datagram from an always-accepted remote is read back, which proves (single-threaded FIFO read loop) that the earlier datagram has been dispatched, so 'created nothing' is decided without sleeping. Accept order and RemoteAddr, every Read (byte-identical next datagram of that remote), backlog overflow, filter refusal and reconnect-after-close (fresh object) are compared with the model; finally the backlog must hold nothing the model does not know. A concurrent test checks isolation, per-remote order, no duplicates and unique RemoteAddr under bursts. Exploration only.",
+    "note": "Assumes in-order, loss-free loopback delivery at the sequential test's volumes (one datagram in flight at a time); the concurrent test does not assert completeness. Datagrams above the receive MTU are not generated.",
+    "design_ref": "DESIGN.md §3 C11",
+}
+CLAIMS["C12"] = {
+    "technique": "rapid-drawn schedules over yield-instrumented udp/conn.go with real sockets (controlled scheduler + terminal quiescence rule), then real-I/O liveness probes",
+    "engine": "sched",
+    "text": "Setup creates 0..3 accepted and 0..2 un-accepted connections with real datagrams; the controlled phase runs listener.Close, conn.Close (also twice), Accept, Read and late datagrams as tasks in a rapid-drawn schedule over every lock/atomic/channel/WaitGroup operation of udp/conn.go and packetio/buffer.go; the listener's own goroutines run free and the run ends only when two whole-process snapshots show every goroutine parked. Oracle: no Close blocks, Accept fails after Close or its connection counts as accepted, reads of closed connections return; then with real I/O: everything closed => port can be bound again and no goroutine of the package remains; otherwise every accepted unclosed connection still sends and receives ('never earlier') and an open listener still accepts. Exploration of drawn schedules.",
+    "note": "Trusted: goroutine wait states from runtime.Stack; netpoller wake-ups are not controlled; liveness waits of 3 s. The batch flush ticker goroutine is expected to exit within that margin.",
+    "design_ref": "DESIGN.md §2.3, §3 C12",
+}
+
 PENDING_REASON = "check not built yet in this revision of /verif (planned, see DESIGN.md §3); nothing is claimed for it"
